@@ -28,7 +28,7 @@ RULE = ("seeded data sets; distinct = canonical case JSON; non-trivial = >=2 qua
 REQUIRED_BUCKETS = ["none-result", "non-working-excluded", "metric-missing", "soc-outside-limits", "equal-limits",
                     "zero-capacity", "zero-total-weight", "soc-on-limit", "monotonicity-checked",
                     "scale-invariance-checked", "integration:cache-dropped-on-stop-working",
-                    "integration:nan-metric-dropped", "integration:silent-battery-timed-out",
+                    "integration:nan-metric-dropped", "integration:silent-battery-timed-out", "integration:battery-silent-a-second-time-at-the-checkpoint",
                     "integration:soc-first-accessed-after-status-known",
                     "integration:device-clock-differs-from-local-clock"]
 REQUIRED_COUNTERS = ["soc_values_compared", "capacity_values_compared", "integration_checkpoints"]
@@ -206,9 +206,15 @@ def gen_integration(rng: Any) -> dict[str, Any]:
     working = list(range(1, nb + 1))
     ev.append([0.0, "working", list(working)])
     silent_until = {b: 0.0 for b in range(1, nb + 1)}
+    # one battery goes silent twice: once in the middle of the run (it comes back), and a second time before the end -
+    # it is still silent at the checkpoint, so its last values must not be part of the aggregate
+    twice = rng.randint(1, nb) if rng.random() < 0.3 else None
+    first_gap = rng.choice([3.2, 4.4, 5.6])
     while t < 12.0:
         t = round(t + 0.4, 3)
         for b in range(1, nb + 1):
+            if b == twice and (first_gap <= t < first_gap + 2.8 or t >= 9.6):
+                continue
             if t < silent_until[b]:
                 continue
             if rng.random() < 0.04:
@@ -228,6 +234,8 @@ def gen_integration(rng: Any) -> dict[str, Any]:
     # final full round so that nothing is silent at the checkpoint
     t = round(t + 0.4, 3)
     for b in range(1, nb + 1):
+        if b == twice:
+            continue
         lo, hi = 10.0, 90.0
         d = {"cap": rng.choice([1000.0, 5000.0]), "lo": lo, "hi": hi, "soc": round(rng.uniform(0, 100), 3)}
         if rng.random() < 0.3:
@@ -238,7 +246,7 @@ def gen_integration(rng: Any) -> dict[str, Any]:
     # device clocks: a battery's samples are stamped by the device, which may lag or lead the local clock
     # (only lagging clocks: the sender's rate limiter sleeps min_update_interval - (now - newest sample timestamp), so a
     # leading device clock merely postpones updates, which is not what this property is about)
-    return {"clock_off": [rng.choice([0.0, 0.0, -30.0, -3.0, -0.5]) for _ in range(nb + 1)],
+    return {"clock_off": [rng.choice([0.0, 0.0, -30.0, -3.0, -0.5]) for _ in range(nb + 1)], "silent_twice": twice,
             "nb": nb, "events": ev, "checkpoint": round(t + 1.0, 3),
             "access_after_event": rng.choice([0, 0, rng.randint(1, max(1, len(ev) // 2))])}
 
@@ -329,6 +337,8 @@ def check_integration(case: dict[str, Any], rec: Any) -> None:
     working: set[int] = set()  # nothing is working until the first status message
     MAXAGE = 2.0
     accessed = False
+    if case.get("silent_twice"):
+        rec.bucket("integration:battery-silent-a-second-time-at-the-checkpoint")
     if any((case.get("clock_off") or [0.0])[1:case["nb"] + 1]):
         rec.bucket("integration:device-clock-differs-from-local-clock")
     for n_ev, e in enumerate(case["events"]):
